@@ -32,6 +32,7 @@ inductive Stmt where
   | setItem (n : String) (i e : E)
   | augItem (n : String) (i : E) (op : String) (e : E)
   | mutCall (n : String) (m : String) (args : List E)
+  | mutItemCall (n : String) (i : E) (m : String) (args : List E)
   | exprS (e : E)
   | del (n : String)
   | pass
@@ -331,6 +332,7 @@ def parseStmt (line : String) : Except String Stmt := do
         let e ← parseExprToks toks
         match e with
         | .meth (.name n') m args => if mutators.contains m then return .mutCall n' m args else return .exprS e
+        | .meth (.index (.name n') i) m args => if mutators.contains m then return .mutItemCall n' i m args else return .exprS e
         | _ => return .exprS e
   | toks => return .exprS (← parseExprToks toks)
 
